@@ -254,6 +254,6 @@ NOT_YET = {k: "check not built yet in this session (planned in DESIGN.md §7/§8
 
 # which extraction items (translator modules / groups of Params) each property's theorems and model depend on:
 # only these count as a broken tie for that property
-TIES = {'C01': ['Params/variants', 'Params/verify', 'Params/sign', 'Params/codec', 'Params/sigformat', 'Params/hash', 'Params/field', 'Params/keygen', 'FeltTables'], 'C02': ['Params/variants', 'Params/verify', 'Params/codec', 'Params/hash', 'Params/field', 'Params/pkformat', 'Params/sigformat', 'FeltTables'], 'C03': ['Params/codec', 'Params/skformat', 'Params/pkformat', 'Params/sigformat', 'Params/verify', 'Params/variants', 'Params/field', 'FeltTables'], 'C04': ['Params/keygen', 'Params/field', 'Params/variants', 'FeltTables', 'U32Tables'], 'C05': ['Params/skformat', 'Params/pkformat', 'Params/sigformat', 'Params/keygen', 'Params/field', 'Params/variants', 'FeltTables'], 'C06': ['Params/skformat', 'Params/pkformat', 'Params/sigformat', 'Params/field', 'Params/variants'], 'C07': ['Params/codec'], 'C08': ['Params/sign', 'Params/sigformat', 'Scan'], 'C09': ['Sampler'], 'C10': ['Params/variants', 'Params/sign', 'Params/keygen', 'CplxTable', 'Sampler'], 'C11': ['FeltTables', 'Params/field'], 'C12': ['Params/field'], 'C13': ['CplxTable'], 'C14': ['Params/hash', 'Params/field'], 'C15': ['Scan', 'Sampler', 'Params/keygen'], 'C16': ['Params/skformat', 'Params/pkformat', 'Params/sigformat', 'Params/field', 'Params/keygen', 'Params/hash', 'Params/codec', 'Params/verify', 'Params/variants', 'Params/sign'], 'C17': ['U32Tables', 'Params/field']}
+TIES = {'C01': ['Params/variants', 'Params/verify', 'Params/sign', 'Params/codec', 'Params/sigformat', 'Params/hash', 'Params/field', 'Params/keygen', 'FeltTables'], 'C02': ['Params/variants', 'Params/verify', 'Params/codec', 'Params/hash', 'Params/field', 'Params/pkformat', 'Params/sigformat', 'FeltTables'], 'C03': ['Params/codec', 'Params/skformat', 'Params/pkformat', 'Params/sigformat', 'Params/verify', 'Params/variants', 'Params/field', 'Params/hash', 'FeltTables'], 'C04': ['Params/keygen', 'Params/field', 'Params/variants', 'FeltTables', 'U32Tables'], 'C05': ['Params/skformat', 'Params/pkformat', 'Params/sigformat', 'Params/keygen', 'Params/field', 'Params/variants', 'FeltTables'], 'C06': ['Params/skformat', 'Params/pkformat', 'Params/sigformat', 'Params/field', 'Params/variants'], 'C07': ['Params/codec'], 'C08': ['Params/sign', 'Params/sigformat', 'Scan'], 'C09': ['Sampler'], 'C10': ['Params/variants', 'Params/sign', 'Params/keygen', 'CplxTable', 'Sampler'], 'C11': ['FeltTables', 'Params/field'], 'C12': ['Params/field'], 'C13': ['CplxTable'], 'C14': ['Params/hash', 'Params/field'], 'C15': ['Scan', 'Sampler', 'Params/keygen'], 'C16': ['Params/skformat', 'Params/pkformat', 'Params/sigformat', 'Params/field', 'Params/keygen', 'Params/hash', 'Params/codec', 'Params/verify', 'Params/variants', 'Params/sign'], 'C17': ['U32Tables', 'Params/field']}
 for _k, _v in TIES.items():
     PROPS[_k]["ties"] = _v
